@@ -30,3 +30,13 @@ class Both:
             x = self._pre
             return x.value
         return x
+
+
+class Collector:
+    def __init__(self):
+        self._items = []
+
+    def add_first(self, x):
+        if not self._items:
+            self._items.append(x)   # an empty list is not absent: fine
+        return self._items
